@@ -120,6 +120,31 @@ func c17Run(c *core.Ctx) {
 			}
 		}
 	}
+	// (1c) displaced witnesses: padding inserted after the first 4/8/12/16 bytes, so
+	// that whatever a detector searches for lies beyond its scanning window
+	// (512, 1152, 2048, 4096 bytes) while the magic number stays in front
+	for _, w := range W {
+		if len(w.Data) < 6 || len(w.Data) > 300 || !c.Next() || c.Expired() {
+			continue
+		}
+		if !isBinaryID(detect(w.Data, 0)) {
+			continue
+		}
+		for _, s := range []int{4, 8, 12, 16} {
+			if s >= len(w.Data) {
+				continue
+			}
+			for _, pad := range []int{508, 2044, 4092, 4100, 5000} {
+				if !c.Thorough() && pad != 4100 && pad != 2044 {
+					continue
+				}
+				for _, fill := range []byte{0x00, 0xEC} {
+					f := append(append(append([]byte{}, w.Data[:s]...), bytesOf(fill, pad)...), w.Data[s:]...)
+					walk(f, "displaced-witness")
+				}
+			}
+		}
+	}
 	// (2) splices
 	maxLen := 700
 	if c.Thorough() {
